@@ -29,6 +29,7 @@ const (
 	r4Quick, r4Thorough         = 1500, 90000 // round 4: router+names, standalone+stateful, router+stateful (round-robin)
 	r5Quick, r5Thorough         = 1600, 60000 // round 5: router+lifecycle
 	r6Quick, r6Thorough         = 1500, 50000 // round 6: router+refused
+	r7Quick, r7Thorough         = 1800, 60000 // round 7: standalone+panics, router+panics (alternating)
 )
 
 func init() {
@@ -36,7 +37,7 @@ func init() {
 		ID:    "C13",
 		Level: "exploration",
 		Cases: func(tier string) int {
-			return vlib.TierN(tier, legacyQuick+extQuick+r4Quick+r5Quick+r6Quick, legacyThorough+extThorough+r4Thorough+r5Thorough+r6Thorough)
+			return vlib.TierN(tier, legacyQuick+extQuick+r4Quick+r5Quick+r6Quick+r7Quick, legacyThorough+extThorough+r4Thorough+r5Thorough+r6Thorough+r7Thorough)
 		},
 		Rule: "case = one PoisonQueue instance (constructor without filter, or PoisonQueueWithFilter with one of 7 predicates: all, none, errors.Is sentinel, " +
 			"its negation, errors.As type, hash of the text, not context.Canceled) with a random poison topic, 1..6 messages (random payload, 0..4 random metadata keys, " +
@@ -82,6 +83,13 @@ func init() {
 			"handle; returns, nothing left to cancel); instants per wave: 'registered' (handlers of the wave added, before Run / RunHandlers), 'after-failed-startup-attempt' (between a Run / RunHandlers that returned a scripted start-up error " +
 			"and the next attempt; reached only when a fault fires), 'started', 'delivered', 'stopped'; from the second message on, 60% of the messages are consumed by a covered handler that a refused call named, after that call; " +
 			"a call whose precondition does not hold at its instant (the handler was restarted after a failed Run ...) is skipped and counted; every handler's PoisonQueue behaviour is judged as in 'router+lifecycle'. " +
+			"Round-7 classes (the last 1800 quick / 60000 thorough indices, alternating): 'standalone+panics' and 'router+panics' = the stand-alone class and the Router class (1..3 handlers, topology as in 'router+ctx', " +
+			"15%: foreign context values, 25% of the Router cases: middleware.Recoverer outermost, so that a panic reaches the Router as an error) where the user code called on the salvage path may PANIC on chosen calls: " +
+			"poison-publisher outcome per attempt drawn from {accept 30%, error 25%, panic 45%}, panic value from 17 kinds {error values: plain, the sentinel, the handler's own error, typed nil pointer, non-comparable error, " +
+			"context.Canceled; real runtime errors: write to a nil map, nil dereference; string, empty string, nil (arrives as *runtime.PanicNilError), non-comparable values: slice, map, func, struct with a slice; int, struct pointer}; " +
+			"45% of the messages are 'outage' messages: one failure the filter accepts on every delivery, the publisher panics (70%) or fails on the first 1..3 deliveries and accepts on the last one (panic -> Nack -> redelivery -> poisoned); " +
+			"other messages: 7% of the attempts the handler itself panics with one of these values instead of returning, 7% (filter present; stand-alone or per-attempt tagged errors, 50%) the filter panics when asked about the failure; " +
+			"the spy records that a panic left the poison middleware and passes it on unchanged; the stand-alone caller recovers it, counts it as a reported failure and retries the same message like after an error. " +
 			"Every attempt is one evaluation of the model; a case is non-trivial when at least " +
 			"one attempt failed with an error the filter accepts (the poison publisher was due); distinct = distinct (mode, filter, registration, topology, per-attempt " +
 			"(error shape, outputs, filter verdict, publisher outcome, settlement), per-message context-injection shape, lifecycle history incl. the observed failed start-up attempts, refused calls (kind, instant, handler, arguments, outcome)) signatures.",
@@ -104,6 +112,12 @@ func init() {
 				"RunHandlers: 'you can't call RunHandlers on non-running router'; Handler.Stop: panic 'handler is not started') has not happened - the statement knows no such calls, so it is expected to hold unchanged for the handler the call named and for all others; " +
 				"Handler.Stop on a handler that has stopped only cancels a context that is cancelled already (it is made through the stopped registration's own handle, also when its name was taken by a new registration); " +
 				"a call that is NOT refused (no panic / nil error / does not return) voids the drawn history: the case is inconclusive (not this property)",
+			"'+panics': the statement's publisher outcomes are accept and error; a Publish call that PANICS has not put the message into the poison topic and is read as 'that publish fails' => the attempt must not be reported as success: " +
+				"either the panic leaves the middleware (stand-alone: the caller sees it; Router: recovered, Nack) or a non-nil error that still carries the handler's error is returned (Nack); which of the two, and the panic value that " +
+				"comes out, are not judged; the single Publish call and its message are judged as in the error row; clauses: 'success-after-publisher-panic' (nil returned), 'acked-but-neither-handled-nor-poisoned' (Router), 'handler-error-lost'; " +
+				"a panic that leaves the middleware while none was drawn (or before the publisher panicked) is the middleware's own: clause 'panic'",
+			"'+panics': a handler that panics has neither succeeded nor returned an error, a filter that panics has given no verdict: no row of the statement applies, only its invariant is demanded - no success (nil error / Ack) " +
+				"unless the poison publisher accepted the message during that invocation ('success-after-panic', 'acked-but-neither-handled-nor-poisoned'); Nack, a propagating panic, a returned error, or a successful poison publish followed by Ack are all allowed",
 			"outputs returned together with an accepted error are not judged (the statement is silent on them)",
 			"a blocked call is decided by the quiescence detector, not by a time-out",
 		},
@@ -134,6 +148,13 @@ type attemptObs struct {
 	gotErr  error
 	after   vlib.MsgSnap
 	spyRet  uint64
+	// ... or that it did not return: a panic left it (the spy passes it on)
+	gotPanic     bool
+	gotPanicText string
+
+	// '+panics': the handler panicked instead of returning / the filter panicked when asked about this failure
+	hPanic    bool
+	fPanicked bool
 
 	// poison publisher boundary
 	calls []*vlib.PubCall
@@ -161,6 +182,9 @@ type world struct {
 	stray       []string
 	filterCalls int
 	panics      []string
+	sent        error // the case's sentinel error (a possible panic value)
+
+	expectedPanicsStandalone int // stand-alone: drawn panics (publisher / handler / filter) that reached the caller
 
 	// filters with memory (classes '+stateful'): the expected verdict is what the filter answered
 	stateful           bool
@@ -218,16 +242,43 @@ func (w *world) handler(msg *message.Message) ([]*message.Message, error) {
 			t.obs = a
 		}
 	}
+	if ap.HPanicK != "" {
+		a.hPanic, a.err, a.reason = true, nil, ""
+	}
 	a.returned = true
 	a.ret = vlib.Now()
 	w.mu.Unlock()
+	if ap.HPanicK != "" {
+		raise(ap.HPanicK, ap.HPanicTxt, w.sent, errors.New("handler panic "+ap.HPanicTxt))
+	}
 	return ap.Outs, ap.Err
 }
 
 // spy is the harness middleware placed directly outside the poison middleware.
 func (w *world) spy(h message.HandlerFunc) message.HandlerFunc {
 	return func(msg *message.Message) ([]*message.Message, error) {
+		completed := false
+		defer func() {
+			if completed {
+				return
+			}
+			// the poison middleware did not return: a panic is passing through (recorded and passed on unchanged)
+			p := recover()
+			w.mu.Lock()
+			if a := w.current(msg.UUID); a != nil && !a.gotSet {
+				a.gotSet, a.gotPanic, a.gotPanicText = true, true, panicText(p)
+				a.after = vlib.Snap(msg)
+				a.spyRet = vlib.Now()
+			} else {
+				w.stray = append(w.stray, "poison middleware panicked for "+msg.UUID+" without a (fresh) handler invocation: "+panicText(p))
+			}
+			w.mu.Unlock()
+			if p != nil {
+				panic(p)
+			}
+		}()
 		outs, err := h(msg)
+		completed = true
 		w.mu.Lock()
 		if a := w.current(msg.UUID); a != nil && !a.gotSet {
 			a.gotSet, a.gotOuts, a.gotErr = true, outs, err
@@ -251,12 +302,33 @@ func (w *world) filter(err error) bool {
 	if err == nil {
 		w.filterNilErr++
 	}
+	if fa := w.filterPanicOwner(err); fa != nil && !fa.fPanicked {
+		fa.fPanicked = true
+		raise(fa.plan.FPanicK, fa.plan.FPanicTxt, w.sent, err) // mu is released by the deferred Unlock
+	}
 	a := w.attributeFilterCall(err)
 	ans := w.pred(err)
 	if a != nil {
 		a.answers = append(a.answers, ans)
 	}
 	return ans
+}
+
+// filterPanicOwner finds the handler invocation whose drawn fault is "the filter panics when asked about this
+// failure" (caller holds mu): stand-alone the only invocation in flight, else the owner of the tagged error.
+func (w *world) filterPanicOwner(err error) *attemptObs {
+	var a *attemptObs
+	var t *tagErr
+	switch {
+	case w.standalone:
+		a = w.inflight
+	case err != nil && errors.As(err, &t):
+		a = t.obs
+	}
+	if a == nil || a.plan.FPanicK == "" || !a.returned || a.gotSet {
+		return nil
+	}
+	return a
 }
 
 // attribute finds the attempt a Publish call belongs to (caller holds mu).
@@ -299,7 +371,11 @@ func (w *world) poisonPub(name string) *vlib.Pub {
 	p.Script = func(no int, topic string, msgs []*message.Message) error {
 		w.mu.Lock()
 		defer w.mu.Unlock()
-		if a := w.attribute(msgs); a != nil && a.plan.PubFail {
+		a := w.attribute(msgs)
+		if a != nil && a.plan.PubPanicK != "" {
+			raise(a.plan.PubPanicK, a.plan.PubPanicTxt, w.sent, a.err) // mu is released by the deferred Unlock
+		}
+		if a != nil && a.plan.PubFail {
 			return a.plan.PubErr
 		}
 		return nil
@@ -319,7 +395,8 @@ type config struct {
 	Concurrent  bool      `json:"concurrent,omitempty"`
 	CtxValues   bool      `json:"foreign_ctx_values,omitempty"`
 	FilterParam string    `json:"filter_param,omitempty"`  // '+stateful': parameters of the filter with memory
-	TaggedErrs  bool      `json:"tagged_errors,omitempty"` // '+stateful': every planned error is wrapped in a per-attempt *tagErr
+	TaggedErrs  bool      `json:"tagged_errors,omitempty"` // '+stateful', '+panics': every planned error is wrapped in a per-attempt *tagErr
+	Recoverer   bool      `json:"recoverer_outermost,omitempty"` // 'router+panics': middleware.Recoverer above everything (a panic reaches the Router as an error)
 	Handlers    []hcfg    `json:"handlers,omitempty"`
 	Life        *lifePlan `json:"lifecycle,omitempty"` // 'router+lifecycle': the history of the Router before / between the deliveries
 }
@@ -346,11 +423,17 @@ func run(e *vlib.Env) vlib.Result {
 	r4 := e.Idx >= legacyN+vlib.TierN(e.Tier, extQuick, extThorough)
 	r5 := e.Idx >= legacyN+vlib.TierN(e.Tier, extQuick, extThorough)+vlib.TierN(e.Tier, r4Quick, r4Thorough)
 	r6 := e.Idx >= legacyN+vlib.TierN(e.Tier, extQuick, extThorough)+vlib.TierN(e.Tier, r4Quick, r4Thorough)+vlib.TierN(e.Tier, r5Quick, r5Thorough)
+	r7 := e.Idx >= legacyN+vlib.TierN(e.Tier, extQuick, extThorough)+vlib.TierN(e.Tier, r4Quick, r4Thorough)+vlib.TierN(e.Tier, r5Quick, r5Thorough)+vlib.TierN(e.Tier, r6Quick, r6Thorough)
 	cfg := config{Mode: "standalone", Filter: filterKinds[r.Intn(len(filterKinds))]}
 	stateful := false
 	if !ext {
 		if e.Idx%2 == 1 {
 			cfg.Mode = "router"
+		}
+	} else if r7 {
+		cfg.Variant, cfg.CtxValues, cfg.TaggedErrs = "panics", r.Chance(0.15), r.Bool()
+		if e.Idx%2 == 1 {
+			cfg.Mode, cfg.Recoverer = "router", r.Chance(0.25)
 		}
 	} else if r6 {
 		cfg.Mode, cfg.Variant, cfg.CtxValues = "router", "refused", r.Chance(0.2)
@@ -386,7 +469,7 @@ func run(e *vlib.Env) vlib.Result {
 	}
 
 	sent := errors.New(e.ID() + " sentinel")
-	w := &world{msgs: map[string]*msgState{}, standalone: cfg.Mode == "standalone", stateful: stateful}
+	w := &world{msgs: map[string]*msgState{}, standalone: cfg.Mode == "standalone", stateful: stateful, sent: sent}
 	if stateful {
 		w.pred, cfg.FilterParam = statefulPredicate(cfg.Filter, r, sent)
 	} else {
@@ -505,6 +588,10 @@ func run(e *vlib.Env) vlib.Result {
 		}
 		p := genMsg(r, e.ID(), i, sent, nh, force, allowOuts)
 		p.At = at
+		if cfg.Variant == "panics" {
+			// a panicking filter needs an owner: stand-alone the invocation in flight, in a Router the tagged error's
+			genPanics(r, p, sent, w.pred, cfg.Filter != "default" && (cfg.Mode == "standalone" || cfg.TaggedErrs))
+		}
 		if cfg.TaggedErrs {
 			for k := range p.Attempts {
 				if ap := &p.Attempts[k]; ap.Err != nil {
@@ -589,8 +676,14 @@ func (w *world) callDirect(h message.HandlerFunc, ms *msgState) {
 		func() {
 			defer func() {
 				if p := recover(); p != nil {
+					// a drawn panic (publisher / handler / filter) that reaches the caller is a reported failure;
+					// any other panic is the middleware's
 					w.mu.Lock()
-					w.panics = append(w.panics, fmt.Sprintf("message %s attempt %d: %v", ms.plan.UUID, k, p))
+					if a := w.inflight; a != nil && a.panicExpected() {
+						w.expectedPanicsStandalone++
+					} else {
+						w.panics = append(w.panics, fmt.Sprintf("message %s attempt %d: %s", ms.plan.UUID, k, panicText(p)))
+					}
 					w.mu.Unlock()
 					err = fmt.Errorf("panic")
 				}
@@ -663,6 +756,9 @@ func runRouter(res *vlib.Result, w *world, pq message.HandlerMiddleware, cfg *co
 		mws = []message.HandlerMiddleware{w.ctxMiddleware(placeOuterMW), w.spy, pq, w.ctxMiddleware(placeInnerMW)}
 		// runs after the Router's own decorator that stores the handler's names in the context
 		router.AddSubscriberDecorators(w.ctxDecorator())
+	}
+	if cfg.Recoverer {
+		mws = append([]message.HandlerMiddleware{middleware.Recoverer}, mws...)
 	}
 	if cfg.Reg == regRouter {
 		router.AddMiddleware(mws...)
